@@ -19,7 +19,7 @@ theorem docVal_normal (c : FDocContent) :
 theorem count_insert_leaf (A k1 k2 : List HTree) (d n a : Nat) (v e : Value) :
     (handlesList (A ++ [HTree.node d v (k1 ++ HTree.node n e [] :: k2)])).count a =
       (handlesList (A ++ [HTree.node d v (k1 ++ k2)])).count a + (if a = n then 1 else 0) := by
-  simp only [handlesList_append, handlesList, handles, List.count_append, List.count_cons,
+  simp only [handlesList_append_ff, handlesList, handles, List.count_append, List.count_cons,
     List.append_nil, List.count_nil, beq_iff_eq]
   by_cases e : a = n
   · subst e; simp; omega
